@@ -5,6 +5,7 @@ use crate::core::{RunCtx, harness_error};
 pub mod c05;
 pub mod c06;
 pub mod c08;
+pub mod c09;
 pub mod c10;
 pub mod c11;
 pub mod c12;
@@ -12,13 +13,14 @@ pub mod c13;
 pub mod c14;
 pub mod c20;
 
-pub const ALL: &[&str] = &["C05", "C06", "C08", "C10", "C11", "C12", "C13", "C14", "C20"];
+pub const ALL: &[&str] = &["C05", "C06", "C08", "C09", "C10", "C11", "C12", "C13", "C14", "C20"];
 
 pub fn run(id: &str, ctx: &RunCtx) -> i32 {
     match id {
         "C05" => c05::run(ctx),
         "C06" => c06::run(ctx),
         "C08" => c08::run(ctx),
+        "C09" => c09::run(ctx),
         "C10" => c10::run(ctx),
         "C11" => c11::run(ctx),
         "C12" => c12::run(ctx),
@@ -48,6 +50,7 @@ pub fn replay(path: &str) -> i32 {
         "C05" => c05::replay(&v),
         "C06" => c06::replay(&v),
         "C08" => c08::replay(&v),
+        "C09" => c09::replay(&v),
         "C10" => c10::replay(&v),
         "C11" => c11::replay(&v),
         "C12" => c12::replay(&v),
